@@ -11,7 +11,8 @@ From Coq Require Import String ZArith QArith Bool Arith Lia List Permutation.
 From GT Require Import Base.Sexp Base.UTree Base.Codec Spec.Obs Model.Reroot Model.Index Model.Outgroup
      Spec.Unrooted Judge.Common Judge.C05
      Proofs.Reroot Proofs.Unroot Proofs.Splits Proofs.C05Main Proofs.OracleDist Proofs.OracleSup
-     Proofs.OracleIndex Proofs.OracleOut Proofs.OracleRm Proofs.OutgroupMidpoint Proofs.USplits.
+     Proofs.OracleIndex Proofs.OracleOut Proofs.OracleRm Proofs.OutgroupMidpoint Proofs.USplits
+     Proofs.TreeEq Proofs.OracleEq Proofs.C05Judge.
 Import ListNotations.
 Local Close Scope Q_scope.
 Local Open Scope string_scope.
@@ -49,14 +50,7 @@ Proof.
 Qed.
 
 (** * the trees on which the oracle of one call is proved to accept the model *)
-Definition multi_tree_ok (remove : bool) (t : utree) : Prop :=
-  wf t = true /\ 2 <= degree t /\ (rooted t = true -> root_has_inner_child t = true) /\
-  NoDup (leaves t) /\ ~ In "" (leaves t) /\
-  (remove = false ->
-   (forall x, In x (bsplits t) -> (0 <= elen (fst (fst x)))%Q) /\
-   (forall p, In p (kids t) -> good_sup (fst p))).
-
-Lemma outgroup_oracles remove strict t names t' :
+Lemma outgroup_oracles_data remove strict t names t' :
   multi_tree_ok remove t -> reroot_outgroup remove strict t names = Ok t' ->
   oracle_outgroup_ok remove strict t t' names = None /\
   (let '(idx, st, bs) := tables_obs t' in index_ok_data t' idx st bs = None).
@@ -105,40 +99,15 @@ Proof.
                 (map (fun t => reroot_outgroup remove strict t names) ts) = None).
   { induction F as [|t r Ht F IH]; simpl; auto.
     destruct (reroot_outgroup remove strict t names) as [t'|m] eqn:H; simpl.
-    - destruct (outgroup_oracles remove strict t names t' Ht H) as [O1 O2].
+    - destruct (outgroup_oracles_data remove strict t names t' Ht H) as [O1 O2].
       unfold tables_obs in O2. cbn beta iota zeta in O2. rewrite O1, O2. exact IH.
     - exact IH. }
   now rewrite E.
 Qed.
 
-(** * the judge itself, on observations that decode to the model's output *)
-Lemma qeqb_refl a : qeqb a a = true.
-Proof. apply Qeq_bool_refl. Qed.
-
-Lemma einfo_eqb_refl e : einfo_eqb e e = true.
-Proof. unfold einfo_eqb. now rewrite !qeqb_refl, list_eqb_refl_string. Qed.
-
-Lemma utree_eqb_refl t : utree_eqb t t = true.
-Proof.
-  induction t as [n c sl IH] using utree_ind'. simpl.
-  rewrite String.eqb_refl, list_eqb_refl_string. simpl.
-  induction IH as [|[[e ch]|] l Hs H IHl]; auto.
-  now rewrite einfo_eqb_refl, Hs, IHl.
-Qed.
-
-(** what it means for the observation [r] of one call to be the output of the model *)
+(** * the judge itself, on observations of the model's output (tree equal up to Qeq) *)
 Definition obs_is_model (remove strict : bool) (names : list string) (t : utree) (r : sexp) : Prop :=
-  get_string "panic" r = None /\
-  match reroot_outgroup remove strict t names with
-  | Err _ => exists m, get_string "err" r = Some m /\ String.eqb m "" = false
-  | Ok t' =>
-    get_string "err" r = Some "" /\ get_tree "tree" r = Some t' /\
-    get_strings "audit" r = Some [] /\
-    (let '(idx, st, bs) := tables_obs t' in
-     get_strings "tipidx" r = Some idx /\
-     (x <- get "tipstate" r ;; dec_list dec_tipstate x) = Some st /\
-     (x <- get "bitsets" r ;; dec_list dec_Z x) = Some bs)
-  end.
+  get_string "panic" r = None /\ obs_result true (reroot_outgroup remove strict t names) r.
 
 Lemma judge_root_on_model remove strict names t c r :
   get_strings "names" c = Some names ->
@@ -146,17 +115,7 @@ Lemma judge_root_on_model remove strict names t c r :
   multi_tree_ok remove t -> obs_is_model remove strict names t r ->
   exists b tag, judge_root_on "outgroup" t true c r = VOk b tag.
 Proof.
-  intros Hn Hr Hs Ht [Hp Ho]. unfold judge_root_on.
-  change (String.eqb "outgroup" "outgroup") with true. cbv iota.
-  rewrite Hn, Hr, Hs. cbn [obind]. rewrite Hp.
-  destruct (reroot_outgroup remove strict t names) as [t'|m] eqn:H.
-  - destruct Ho as (He & Hg & Ha & Hi). rewrite He. cbn [String.eqb negb]. rewrite Hg.
-    destruct (outgroup_oracles remove strict t names t' Ht H) as [O1 O2].
-    unfold audit_ok. rewrite Ha. unfold index_ok.
-    destruct (tables_obs t') as [[idx st] bs]. destruct Hi as (I1 & I2 & I3).
-    rewrite I1, I2, I3. unfold first_some. cbn [fold_right]. rewrite O1, O2.
-    rewrite utree_eqb_refl. eauto.
-  - destruct Ho as (msg & He & Hm). rewrite He, Hm. cbn [negb]. unfold oracle_outgroup_refused. eauto.
+  intros Hn Hr Hs Ht [Hp Ho]. eapply judge_root_on_outgroup; eauto.
 Qed.
 
 Lemma judge_each_model remove strict names c ts rs :
@@ -216,6 +175,26 @@ Proof.
   unfold oracle_reduced. rewrite W'. simpl.
   rewrite (ssort_eq_perm _ _ L). unfold sset_eqb. now rewrite list_eqb_refl_string.
 Qed.
+
+Lemma obs_tree_check wi t' r g idx st bs :
+  get_string "err" r = Some "" -> get_tree "tree" r = Some g -> utree_eqb t' g = true ->
+  get_strings "audit" r = Some [] -> tables_obs g = (idx, st, bs) ->
+  get_strings "tipidx" r = Some idx ->
+  (x <- get "tipstate" r ;; dec_list dec_tipstate x) = Some st ->
+  (x <- get "bitsets" r ;; dec_list dec_Z x) = Some bs ->
+  obs_tree wi t' r.
+Proof.
+  intros H1 H2 H3 H4 H5 H6 H7 H8. split; [exact H1|]. exists g.
+  split; [exact H2|]. split; [exact H3|]. split; [exact H4|].
+  intros _. rewrite H5. repeat split; assumption.
+Qed.
+
+Ltac check_obs_is_model :=
+  split; [vm_compute; reflexivity|];
+  match goal with |- obs_result _ ?m _ => let v := eval vm_compute in m in change m with v end;
+  cbn [obs_result];
+  first [ eapply obs_tree_check; [vm_compute; reflexivity ..]
+        | eexists; split; vm_compute; reflexivity ].
 
 (** * a concrete stream: the hypotheses are satisfiable and the judge is run on it *)
 Definition enc_obs (r : res utree) : sexp :=
@@ -285,7 +264,57 @@ Proof.
   split.
   { rewrite multi_loop_independent. unfold multi_trees. cbn [fst map].
     constructor; [|constructor; [|constructor; [|constructor]]];
-      (split; [vm_compute; reflexivity|]); vm_compute;
-      first [ eexists; split; reflexivity | repeat split; reflexivity ]. }
+      check_obs_is_model. }
+  vm_compute. reflexivity.
+Qed.
+
+(** * the same stream without removal: the model's trees carry unreduced numbers (2 * (1 # 2)),
+    the encoded observation carries the reduced ones, the decoded tree is a different term that is
+    [utree_eqb]-equal -- the situation of every real keep-mode observation *)
+Lemma multi_tree_ok_keep_b t :
+  wf t = true -> Nat.leb 2 (degree t) = true -> rooted t = false ->
+  has_dup (leaves t) = false -> smem "" (leaves t) = false ->
+  forallb (fun x => Qle_bool 0 (elen (fst (fst x)))) (bsplits t) = true ->
+  forallb (fun p : einfo * utree => qeqb (esup (fst p)) nilv || Qle_bool 0 (esup (fst p))) (kids t) = true ->
+  multi_tree_ok false t.
+Proof.
+  intros W D R ND E L S. destruct (multi_tree_ok_b t W D R ND E) as (A1 & A2 & A3 & A4 & A5 & _).
+  repeat split; auto.
+  - intros x Hx. rewrite forallb_forall in L. apply Qle_bool_iff. now apply L.
+  - intros p Hp. rewrite forallb_forall in S. specialize (S p Hp).
+    apply orb_true_iff in S as [S|S]; [left; exact S|right; now apply Qle_bool_iff].
+Qed.
+
+Definition multi_names_keep : list string := ["b"; "zz"; "a"].
+Definition multi_case_keep : sexp :=
+  SList [SList [Atom "op"; Atom "outgroup_multi"];
+         SList [Atom "trees"; SList (map enc_utree multi_trees)];
+         SList [Atom "names"; enc_strings multi_names_keep];
+         SList [Atom "remove"; Atom "F"]; SList [Atom "strict"; Atom "T"]].
+Definition multi_obs_keep : sexp :=
+  let out := multi_loop false true multi_trees multi_names_keep in
+  SList [SList [Atom "results"; SList (map enc_obs (fst out))];
+         SList [Atom "names_after"; enc_strings (snd out)]].
+
+Lemma multi_example_keep :
+  Forall (multi_tree_ok false) multi_trees /\
+  Forall2 (obs_is_model false true multi_names_keep) multi_trees
+          (map enc_obs (fst (multi_loop false true multi_trees multi_names_keep))) /\
+  (exists t1 g, nth_error (fst (multi_loop false true multi_trees multi_names_keep)) 0 = Some (Ok t1) /\
+                get_tree "tree" (enc_obs (Ok t1)) = Some g /\ utree_eqb t1 g = true /\ t1 <> g) /\
+  judge multi_case_keep multi_obs_keep = VOk true "outgroup_multi".
+Proof.
+  split.
+  { unfold multi_trees. constructor; [|constructor; [|constructor; [|constructor]]];
+      apply multi_tree_ok_keep_b; vm_compute; reflexivity. }
+  split.
+  { rewrite multi_loop_independent. unfold multi_trees. cbn [fst map].
+    constructor; [|constructor; [|constructor; [|constructor]]];
+      check_obs_is_model. }
+  split.
+  { do 2 eexists. split; [vm_compute; reflexivity|]. split; [vm_compute; reflexivity|].
+    split; [vm_compute; reflexivity|]. intros E.
+    apply (f_equal (fun t => map (fun p : einfo * utree => elen (fst p)) (kids t))) in E.
+    vm_compute in E. discriminate E. }
   vm_compute. reflexivity.
 Qed.
